@@ -88,6 +88,25 @@ func configure(g *gen) {
 	add(FnSpec{Recv: "cachedRoutes", Func: "Get", Lean: "CR.Get", Exts: crExts, Mutates: true})
 	add(FnSpec{Recv: "cachedRoutes", Func: "Delete", Lean: "CR.Delete", Exts: crExts, Mutates: true})
 	add(FnSpec{Recv: "cachedRoutes", Func: "Has", Lean: "CR.Has", Exts: crExts, Mutates: true})
+	// parse_match.go: the three-tier lookup `Router.match` over abstract tables (static map, route cache, the two
+	// maps of route lists), abstract routes ρ and params π; `rs[i].matchRegex`, `route.params.clone`,
+	// `r.cacheDynamicRoute` are operations of the environment
+	route := T{"opaque", "ρ"}
+	add(FnSpec{Recv: "Router", Func: "match", Lean: "Router.match_",
+		Extra:    []string{"{σ ρ π : Type}", "(env : GoRt.MEnv σ ρ π)", "(s0 : σ)"},
+		Prologue: []string{"let mut s := s0"}, RetExtra: []string{"s"}, RetExtraT: []string{"σ"},
+		Exts: []Ext{
+			{Callee: "$.stableRoutes[]", Value: "(env.stable s %1)", T: T{"opaque", "Option ρ"}},
+			{Callee: "$.cachedRoutes.Get", Stmts: []string{"let %t := env.cacheGet s %1", "s := %t.2"},
+				Values: []string{"%t.1.1", "%t.1.2"}, Ts: []T{{"opaque", "Option ρ"}, tBool}},
+			{Callee: "_.params.clone", Value: "(env.paramsClone %1)", T: T{"opaque", "Option π"}},
+			{Callee: "$.regularRoutes[]", Values: []string{"(env.regular s %1).1", "(env.regular s %1).2"}, Ts: []T{{"opaque", "List ρ"}, tBool}},
+			{Callee: "$.irregularRoutes[]", Values: []string{"(env.irregular s %1).1", "(env.irregular s %1).2"}, Ts: []T{{"opaque", "List ρ"}, tBool}},
+			{Callee: "_.start", Value: "(env.start %1)", T: tStr},
+			{Callee: "_.matchRegex", Values: []string{"(env.matchRegex %1 %2).1", "(env.matchRegex %1 %2).2"}, Ts: []T{{"opaque", "Option π"}, tBool}},
+			{Callee: "$.cacheDynamicRoute", Stmts: []string{"s := env.cacheDynamic s %1 %2 %3"}},
+		}})
+	_ = route
 	// response_wirter.go
 	add(FnSpec{Recv: "responseWriter", Func: "reset", Lean: "RW.reset", Exts: []Ext{
 		// w.Writer = w2: a new underlying writer, nothing has reached it yet
